@@ -1,0 +1,22 @@
+//go:build verif
+
+// Copyright 2025 NVIDIA CORPORATION
+// SPDX-License-Identifier: Apache-2.0
+
+package proportion
+
+import (
+	"github.com/NVIDIA/KAI-scheduler/pkg/scheduler/api/common_info"
+	"github.com/NVIDIA/KAI-scheduler/pkg/scheduler/framework"
+	rs "github.com/NVIDIA/KAI-scheduler/pkg/scheduler/plugins/proportion/resource_share"
+)
+
+// QueueAttributesForSim exposes the per-queue shares and the cluster total of a proportion plugin
+// instance (simulation harness only; read-only use).
+func QueueAttributesForSim(p framework.Plugin) (map[common_info.QueueID]*rs.QueueAttributes, rs.ResourceQuantities) {
+	pp, ok := p.(*proportionPlugin)
+	if !ok || pp == nil {
+		return nil, nil
+	}
+	return pp.queues, pp.totalResource
+}
